@@ -349,11 +349,12 @@ CHECKS = {"counters": check_counters}
 
 # --------------------------------------------------------------------------------------------- generators
 def weighted(*pairs):
-    """(weight, strategy) alternatives with real weights (one_of de-duplicates repeated strategies)."""
+    """(weight, strategy) alternatives with real weights: one_of() de-duplicates a repeated strategy object, so every
+    copy is wrapped in its own map(); unlike a selector + tuple of all alternatives nothing unused is drawn (the
+    shrinker's budget is not spent on branches that were not taken)."""
     from hypothesis import strategies as st
 
-    sel = st.sampled_from([i for i, (w, _) in enumerate(pairs) for _ in range(w)])
-    return st.tuples(sel, *[s for _, s in pairs]).map(lambda t: t[1 + t[0]])
+    return st.one_of(*[s.map(lambda x: x) for w, s in pairs for _ in range(w)])
 
 
 def strategy(quick):
